@@ -249,6 +249,8 @@ def _check_main(ctx, res) -> None:
                 r = c.func.value
                 if (isinstance(r, ast.Name) and (r.id in locs or (r.id in pnames and "commands" in r.id))) or (is_self_attr(r) and "commands" in r.attr):
                     out.append(c)
+                elif isinstance(r, ast.Call) and is_self_attr(r.func) and "fscommands" in r.func.attr:
+                    out.append(c)  # the command object used where it is obtained: self._get_fscommands(r).move(...)
         return out
 
     mut_methods: Dict[str, Set[str]] = {}
@@ -329,9 +331,22 @@ def _check_main(ctx, res) -> None:
     ro = idx.need_class("rope.base.resourceobserver.ResourceObserver")
     ro_params = param_names(ro.methods["__init__"].node)[1:]
     seen = set()
+    # a registration site may be split into private steps: they are read in place at the site and not taken for sites
+    steps = set()
+    for q in REQUIRED:
+        sf = idx.functions.get(q)
+        if sf is not None and sf.cls is not None:
+            for c in calls_in(sf.node):
+                if is_self_attr(c.func) and c.func.attr.startswith("_"):
+                    hm = idx.find_method(sf.cls.qualname, c.func.attr)
+                    if hm is not None:
+                        steps.add(hm.qualname)
     for f in sorted(idx.functions.values(), key=lambda f: f.qualname):
+        if f.qualname in steps and f.qualname not in REQUIRED:
+            continue
+        fnode = common.inlined(idx, f) if f.qualname in REQUIRED else f.node
         regs = []  # (call, events, filtered, registered)
-        for c in calls_in(f.node):
+        for c in calls_in(fnode):
             if idx.resolve(f.unit.modname, c.func) != ro.qualname:
                 continue
             passed = {}
@@ -343,17 +358,17 @@ def _check_main(ctx, res) -> None:
             events = {e for e in EVENTS if e in passed and not (isinstance(passed[e], ast.Constant) and passed[e].value is None)}
             # wrapped / registered?
             var = None
-            for n in walk_local(f.node):
+            for n in walk_local(fnode):
                 if isinstance(n, ast.Assign) and n.value is c and isinstance(n.targets[0], ast.Name):
                     var = n.targets[0].id
             filtered, registered = False, False
             wrapped_names = {var}
-            for n in walk_local(f.node):
+            for n in walk_local(fnode):
                 if isinstance(n, ast.Assign) and isinstance(n.value, ast.Call) and call_name(n.value) == "FilteredResourceObserver" \
                         and n.value.args and isinstance(n.value.args[0], ast.Name) and n.value.args[0].id == var:
                     filtered = True
                     wrapped_names.add(norm(n.targets[0]).replace("Store", "Load"))
-            for c2 in calls_in(f.node):
+            for c2 in calls_in(fnode):
                 if call_name(c2) == "add_observer" and c2.args:
                     a = c2.args[0]
                     if (isinstance(a, ast.Name) and a.id in wrapped_names) or norm(a) in wrapped_names:
